@@ -903,6 +903,8 @@ class Length(object):
             font_height=font_height,
             viewbox=viewbox,
         )
+        if isinstance(value, Length):
+            return Length(value)  # Could not be resolved with what was given: it stays as it is.
         v = value / (ppi * 0.0393701)
         return Length("%smm" % (Length.str(v)))
 
@@ -921,6 +923,8 @@ class Length(object):
             font_height=font_height,
             viewbox=viewbox,
         )
+        if isinstance(value, Length):
+            return Length(value)  # Could not be resolved with what was given: it stays as it is.
         v = value / (ppi * 0.393701)
         return Length("%scm" % (Length.str(v)))
 
@@ -939,6 +943,8 @@ class Length(object):
             font_height=font_height,
             viewbox=viewbox,
         )
+        if isinstance(value, Length):
+            return Length(value)  # Could not be resolved with what was given: it stays as it is.
         v = value / ppi
         return Length("%sin" % (Length.str(v)))
 
